@@ -1089,6 +1089,24 @@ def check_schedule_keys(check, an: Analysis, rule: str):
                     kinds['at'] = kinds.get('at', True) and by_at
                 else:
                     kinds['other:%s' % key] = False
+    # ... and every call of schedule queues its activation: exactly once on every way through
+    # (a wake-up that is dropped for some value of the delay -- `inf`, say -- never comes)
+    n_paths, dropped = 0, None
+    for path in an.paths(an.callee(LOOP, 'schedule')):
+        if not path.normal:
+            continue
+        n_paths += 1
+        queued = [i for i, e in enumerate(path.events) if e.kind == 'call'
+                  and isinstance(e.node, ast.Call) and isinstance(e.node.func, ast.Attribute)
+                  and e.node.func.attr in ('push', 'append', 'appendleft')
+                  and rules.receiver_at(path, e) in ('self._activations', 'self._pending')]
+        if len(queued) != 1:
+            dropped = dropped or (path, queued[-1] if queued else len(path.events) - 1)
+    check.instance(rule, 'Loop.schedule:queues-once-on-every-path',
+                   dropped is None and n_paths > 0, where_fn(schedule),
+                   'every way through schedule() queues the activation exactly once, '
+                   'whatever the delay or date (%d paths)' % n_paths,
+                   path=rules.path_lines(*dropped) if dropped else None, analysed=n_paths)
     check.instance(rule, 'Loop.schedule:keys', kinds == {'delay': True, 'at': True},
                    where_fn(schedule), 'activations are queued under `time + delay` when a '
                    'delay is given and under `at` (the date as given) when a date is given: '
